@@ -230,6 +230,6 @@ def run(ctx):
     check_truncate(ctx)
     check_weaver(ctx, wm)
     from . import c10
-    c10.check_scans(ctx, kinds=('lower', 'higher'))      # truncation is built on the two one-sided scans (structural table only)
+    c10.check_scans(ctx, kinds=('lower', 'higher'), fill_true_only=True)      # truncation is built on the two one-sided scans (structural table only)
     ctx.notes.append('NOT DECIDED: that the neighbour searches return the right neighbour (C10).')
     ctx.trust('callees kept uninterpreted on both sides of each comparison; NumPy slice semantics for [lo:hi:step]')
